@@ -117,6 +117,12 @@ class ConstantExpressionEvaluator:
             "+": lambda x, y: x + y,
             "-": lambda x, y: x - y,
             "*": lambda x, y: x * y,
+            "<": lambda x, y: int(x < y),
+            "<=": lambda x, y: int(x <= y),
+            ">": lambda x, y: int(x > y),
+            ">=": lambda x, y: int(x >= y),
+            "==": lambda x, y: int(x == y),
+            "!=": lambda x, y: int(x != y),
         }
 
         # Ensure division is integer division, truncating towards zero:
